@@ -61,3 +61,39 @@ Section Proofs.
     apply (Hc q v); auto. unfold helper_applies. rewrite A', R'. reflexivity.
   Qed.
 End Proofs.
+
+(* ---- block order: the meaning of the expansion does not depend on member order ---- *)
+From Coq Require Import Permutation.
+
+Section Perm.
+  Variables Q V : Type.
+  Variable keyvals : Q -> option V.
+
+  Lemma existsb_perm {A} (f : A -> bool) l l' : Permutation l l' -> existsb f l = existsb f l'.
+  Proof.
+    induction 1; simpl; auto.
+    - rewrite IHPermutation; reflexivity.
+    - destruct (f x), (f y); reflexivity.
+    - congruence.
+  Qed.
+
+  Theorem coverage_perm ms ms' q : Permutation ms ms' ->
+    main_applies Q V keyvals ms q = main_applies Q V keyvals ms' q.
+  Proof.
+    intro H. unfold main_applies. destruct (keyvals q); auto. apply existsb_perm; exact H.
+  Qed.
+
+  Lemma filter_perm {A} (f : A -> bool) l l' : Permutation l l' -> Permutation (filter f l) (filter f l').
+  Proof.
+    induction 1; simpl; auto.
+    - destruct (f x); auto.
+    - destruct (f x), (f y); auto. apply perm_swap.
+    - eapply perm_trans; eauto.
+  Qed.
+
+  Theorem selected_perm ms ms' q : Permutation ms ms' ->
+    Permutation (selected Q V keyvals ms q) (selected Q V keyvals ms' q).
+  Proof.
+    intro H. unfold selected. destruct (keyvals q); auto. apply filter_perm; exact H.
+  Qed.
+End Perm.
